@@ -207,10 +207,10 @@ func (this *badgerWAL) HardState() (raftpb.HardState, error) {
 }
 
 func (this *badgerWAL) Save(hardState raftpb.HardState, entries []raftpb.Entry, snapshot raftpb.Snapshot) error {
-	if err := verifIO(this.db, this.groupId, "save", true); err != nil {
+	if err := verifIO(this.db, this.groupId, verifSaveOp(hardState, entries, snapshot), true); err != nil {
 		return err
 	}
-	defer verifIO(this.db, this.groupId, "save", false)
+	defer verifIO(this.db, this.groupId, verifSaveOp(hardState, entries, snapshot), false)
 	batch := this.db.NewWriteBatch()
 	defer batch.Cancel()
 
